@@ -349,6 +349,7 @@ def theorem_reach(c, cases, vflags='0000', want=('reach', 'runguard', 'eqguard')
             out[i]['run'] = tuple(ch == '1' for ch in r[:3]) if len(r) >= 3 and set(r[:3]) <= set('01') else (False, False, False)
             out[i]['runi'] = tuple(ch == '1' for ch in r[3:5]) if len(r) >= 5 and set(r[:5]) <= set('01') else (False, False)
             out[i]['runh'] = tuple(ch == '1' for ch in r[5:7]) if len(r) >= 7 and set(r[:7]) <= set('01') else (False, False)
+            out[i]['runp'] = (len(r) >= 8 and r[7] == '1')
     if 'eqguard' in want:
         o, _ = run_lines_sharded(vm, ['eqguard %s %d %d %s (%s)' % (vflags, late[i], FUEL, sx[i], evs[i]) for i in range(len(cases))], timeout=1500)
         for i, r in enumerate(o):
